@@ -985,3 +985,44 @@ func init() {
 		c.Dom("id-leaves-group", f, c.SuccessReturns(f), "blob pulled", GSites("delete(l.groups[item.Block], id)", inner))
 	})
 }
+
+func init() {
+	extendProp("C37", "A constant estimate (the plain-transfer shortcut's 21000) is returned only where the capped upper bound — the very value the first full execution would run with — is known to be at least that constant, so the shortcut cannot exceed the gas cap or the funds allowance.", nil, func(c *Ctx) {
+		c.Rule("CAP/C37.shortcut")
+		ge := "eth/gasestimator"
+		est := c.Fn(ge, "Estimate")
+		if est == nil {
+			return
+		}
+		c.Funcs[est] = true
+		// the capped upper bound: gas argument of the execute call that is not a constant and dominates the search loop
+		var hi ssa.Value
+		for _, s := range c.Calls(est, ge+".execute") {
+			a := s.Instr.(*ssa.Call).Call.Args[3]
+			if _, isConst := a.(*ssa.Const); isConst {
+				continue
+			}
+			if hi == nil || instrDominates(s.Instr, hi.(ssa.Instruction)) {
+				if _, ok := a.(ssa.Instruction); ok {
+					hi = a
+				}
+			}
+		}
+		if hi == nil {
+			c.Undecided("upper-bound", est.Pos(), "could not identify the capped upper bound passed to the first full execution")
+			return
+		}
+		n := 0
+		for _, r := range c.SuccessReturns(est) {
+			k, isConst := retVal(r.Instr.(*ssa.Return), 0).(*ssa.Const)
+			if !isConst || ConstInt(0)(k) {
+				continue
+			}
+			n++
+			kv := k.Int64()
+			g := GCond("hi >= constant", est, Cmp(func(v ssa.Value) bool { return v == hi }, token.GEQ, func(v ssa.Value) bool { return constIs(v, kv) }))
+			c.Dom("within-cap", est, []Site{r}, "constant estimate returned", g)
+		}
+		c.Expect(1, n, "constant estimate returns (plain-transfer shortcut)")
+	})
+}
